@@ -394,6 +394,18 @@ pub fn drive(args: &[String]) -> i32 {
         let text = if k % 2 == 0 { format!("M DEFINITIONS ::= BEGIN {text}") } else { text };
         both(&mut jobs, "soup", format!("soup {k}"), text, k % 4 == 0);
     }
+    // arbitrary characters: control characters, punctuation, letters, multi-byte and astral code points
+    for k in 0..200 * scale {
+        let len = 1 + rng.below(if k % 8 == 0 { 600 } else { 60 });
+        let text: String = (0..len).map(|_| {
+            let r = rng.below(100);
+            let cp = if r < 35 { 0x20 + rng.below(0x5F) as u32 } else if r < 50 { rng.below(0x20) as u32 } else if r < 70 { 0xA0 + rng.below(0x2F00) as u32 }
+                     else if r < 85 { 0x3000 + rng.below(0xA000) as u32 } else { 0x1_0000 + rng.below(0xF_FFFF) as u32 };
+            char::from_u32(cp).unwrap_or('\u{FFFD}')
+        }).collect();
+        let text = match k % 3 { 0 => text, 1 => format!("M DEFINITIONS ::= BEGIN A ::= {text} END"), _ => format!("M DEFINITIONS ::= BEGIN a UTF8String ::= \"{text}") };
+        both(&mut jobs, "chars", format!("characters {k}"), text, k % 4 == 0);
+    }
     for depth in [10usize, 100, 1000, 5000] {
         for (open, close) in [("{", "}"), ("(", ")"), ("SEQUENCE { a ", " }"), ("SEQUENCE OF ", ""), ("/*", "*/"), ("[[", "]]")] {
             let text = format!("M DEFINITIONS ::= BEGIN T ::= {}INTEGER{} END", open.repeat(depth), close.repeat(depth));
